@@ -71,6 +71,8 @@ def write_real_input(d, desc, allowed):
         return write_intersection_input(d, desc)
     if desc.get("special") == "perturb":
         return write_perturbed_input(d, desc)
+    if desc.get("special") == "tiny":
+        return write_tiny_input(d, desc)
     if desc.get("special") == "constref":
         return pc.write_constref_cue(d, "cue_" + input_id(desc), pkg_name(desc))
     spec = real_spec(desc["abs"], pkg_name(desc))
@@ -167,14 +169,36 @@ def write_perturbed_input(d, desc):
     return {"jsonschema": {"path": "%__config_dir%/" + os.path.basename(p), "package": pkg_name(desc)}}
 
 
-def make_job(base, name, descs, langs, flags, allowed="all", ndef=0, sched=None, final=""):
+def write_tiny_input(d, desc):
+    """One small JSON Schema input: a root struct `obj` (+ an enum or an integer `Mode`, + a reference field), package `pkgname`."""
+    tag = input_id(desc)
+    obj = desc.get("obj", "T")
+    defs = {obj: {"type": "object", "properties": {"v": {"type": "string"}, "n": {"type": "integer"}}}}
+    mode = desc.get("mode")
+    if mode == "enum":
+        defs["Mode"] = {"type": "string", "enum": ["light", "dark"]}
+        defs[obj]["properties"]["mode"] = {"$ref": "#/definitions/Mode"}
+    elif mode == "int":
+        defs["Mode"] = {"type": "integer"}
+        defs[obj]["properties"]["mode"] = {"$ref": "#/definitions/Mode"}
+    doc = {"$schema": "http://json-schema.org/draft-07/schema#", "$ref": "#/definitions/" + obj, "definitions": defs}
+    p = os.path.join(d, tag + ".schema.json")
+    open(p, "w").write(json.dumps(doc, indent=1))
+    return {"jsonschema": {"path": "%__config_dir%/" + os.path.basename(p), "package": pkg_name(desc)}}
+
+
+def make_job(base, name, descs, langs, flags, allowed="all", ndef=0, sched=None, final="", passes=None):
     d = os.path.join(base, name)
     os.makedirs(d)
     inputs = [write_real_input(d, x, allowed) for x in descs]
+    common = passes
     passes = None
     if ndef >= 2:
         open(os.path.join(d, "common.yaml"), "w").write(pc.yaml_dump({"passes": [
             {"fields_set_default": {"defaults": {"alpha.B.note": "v1", "alpha.b.NOTE": "v1"}}}]}))
+        passes = ["%__config_dir%/common.yaml"]
+    elif common:
+        open(os.path.join(d, "common.yaml"), "w").write(pc.yaml_dump({"passes": common}))
         passes = ["%__config_dir%/common.yaml"]
     y = pc.write_pipeline(d, "pipeline", inputs, langs, common_passes=passes, **flags)
     pkgs = sorted({pkg_name(x) for x in descs})
@@ -205,17 +229,32 @@ class Plan:
         self.inputs_table = inputs_table
         self.n = 0
 
-    def add(self, group, descs, langs, flagname, allowed="all", ndef=0, sched=None, final=""):
+    def add_entry(self, group, entry, langs, sched=None):
+        """A corpus entry of pipeline_common (its own pipeline file, veneers, passes) generated for a language subset."""
         self.n += 1
         name = "r%04d" % self.n
-        job = make_job(self.base, name, descs, langs, FLAGSETS[flagname], allowed, ndef, sched, final)
+        e = pc.GROWTH_ENTRIES[entry](self.base, name, langs=langs)
+        job = {"id": name, "yaml": e["yaml"], "inspect": False, "outdir": "out", "langs": list(langs), "pkgs": e["pkgs"]}
+        if sched:
+            job["sched"] = sched
+        self.inputs_table["entry:" + entry] = {"pkg": entry}
+        self.jobs.append(job)
+        self.meta[name] = {"group": group, "descs": [], "ids": ["entry:" + entry], "langs": list(langs), "flags": "builders", "allowed": "all",
+                           "ndef": 0, "sched": sched, "final": "", "cfg": "entry=" + entry, "entry": entry, "pkgs": e["pkgs"]}
+        return name
+
+    def add(self, group, descs, langs, flagname, allowed="all", ndef=0, sched=None, final="", passes=None):
+        self.n += 1
+        name = "r%04d" % self.n
+        job = make_job(self.base, name, descs, langs, FLAGSETS[flagname], allowed, ndef, sched, final, passes)
         ids = [input_id(x) for x in descs]
         for x, i in zip(descs, ids):
             self.inputs_table[i] = {"pkg": pkg_name(x)}
         self.jobs.append(job)
         self.meta[name] = {"group": group, "descs": descs, "ids": ids, "langs": list(langs), "flags": flagname, "allowed": allowed,
-                           "ndef": ndef, "sched": sched, "final": final,
-                           "cfg": cfg_key(FLAGSETS[flagname], allowed, ndef) + (",final=" + final if final else "")}
+                           "ndef": ndef, "sched": sched, "final": final, "passes": passes,
+                           "cfg": cfg_key(FLAGSETS[flagname], allowed, ndef) + (",final=" + final if final else "")
+                           + (",passes=" + hashlib.sha1(json.dumps(passes, sort_keys=True).encode()).hexdigest()[:8] if passes else "")}
         return name
 
 
@@ -250,14 +289,27 @@ def lang_of(path, langs):
 
 
 def pkg_of(path, pkgs):
+    """The package a generated file is specific to: the exact spelling first (packages may differ by letter case only), then any
+    letter case (PHP, Java ... re-case directories)."""
     segs = path.split("/")
-    for i, seg in enumerate(segs):
-        for p in pkgs:
-            if seg.lower() == p.lower():
-                return p
-            if i == len(segs) - 1 and "." in seg and seg.split(".", 1)[0].lower() == p.lower():
-                return p
+    for eq in ((lambda a, b: a == b), (lambda a, b: a.lower() == b.lower())):
+        for i, seg in enumerate(segs):
+            for p in pkgs:
+                if eq(seg, p):
+                    return p
+                if i == len(segs) - 1 and "." in seg and eq(seg.split(".", 1)[0], p):
+                    return p
     return ""
+
+
+def same_package_order(ma, mb):
+    """Both runs list the inputs of every package in the same relative order (only inputs of DIFFERENT packages moved)."""
+    def by_pkg(m):
+        out = {}
+        for d, i in zip(m["descs"], m["ids"]):
+            out.setdefault(pkg_name(d), []).append(i)
+        return out
+    return by_pkg(ma) == by_pkg(mb)
 
 
 def run(ctx):
@@ -337,6 +389,43 @@ def run(ctx):
             for sv in (sched_variants if len(ls) > 1 else [None]):
                 plan.add("langs", descs, ls, "types", sched=sv, final="Geo")
 
+    # builder transformations: the veneer corpus entries (common `all` rules + per-language rules acting on what the common ones
+    # created) for every singleton, a third of the pairs (all at thorough) and the full set, in every loop order
+    vpairs = [list(p) for p in itertools.combinations(full, 2)]
+    vsubsets = [[l] for l in full] + (vpairs[(ctx.seed + 1) % 3::3] if quick else vpairs) + [list(full)]
+    for entry in ("veneerparams", "veneers"):
+        for ls in vsubsets:
+            for sv in (sched_variants if len(ls) > 1 else [None]):
+                plan.add_entry("langs", entry, ls, sched=sv)
+
+    # --- InputOrderIndependent with MANY inputs: 14 one-object packages + two inputs of one shared package kept in their relative
+    # order, several seeded permutations (grouping code may behave differently beyond a dozen schemas)
+    many = [{"abs": isect_abs, "fmt": "jsonschema", "special": "tiny", "pkgname": "pk%02d" % k, "obj": "T%02d" % k} for k in range(14)]
+    sh_a = {"abs": isect_abs, "fmt": "jsonschema", "special": "tiny", "pkgname": "shared", "obj": "Alpha"}
+    sh_b = {"abs": isect_abs, "fmt": "jsonschema", "special": "tiny", "pkgname": "shared", "obj": "Beta"}
+    reference = many[:5] + [sh_a] + many[5:10] + [sh_b] + many[10:]
+    plan.add("permN", reference, ["jsonschema", "typescript"], "types")
+    prnd = random.Random(ctx.seed * 1009 + 5)
+    for _ in range(12 if quick else 60):
+        order = list(reference)
+        prnd.shuffle(order)
+        ia, ib = order.index(sh_a), order.index(sh_b)
+        if ia > ib:
+            order[ia], order[ib] = order[ib], order[ia]
+        plan.add("permN", order, ["jsonschema", "typescript"], "types")
+
+    # --- UnrelatedInputIrrelevant with CROSS-PACKAGE references: `dash` refers to `common.Mode` (a replace_reference common pass);
+    # the unrelated package is named after the existing ones: other letter case, prefix, suffix - sorting before and after them
+    xcommon = {"abs": isect_abs, "fmt": "jsonschema", "special": "tiny", "pkgname": "common", "obj": "Theme", "mode": "enum"}
+    xdash = {"abs": isect_abs, "fmt": "jsonschema", "special": "tiny", "pkgname": "dash", "obj": "Dashboard", "mode": "enum"}
+    xpasses = [{"replace_reference": {"from": "dash.Mode", "to": "common.Mode"}}]
+    xlangs = ["jsonschema", "openapi", "python"]      # Go / TypeScript / PHP / Java re-case package directories: case variants collide there
+    plan.add("xref", [xcommon, xdash], xlangs, "types", passes=xpasses)
+    for nm in (["Common", "commons", "Dash"] if quick else ["Common", "COMMON", "com", "commons", "common_x", "Dash", "DASH", "das", "dashx"]):
+        other = {"abs": isect_abs, "fmt": "jsonschema", "special": "tiny", "pkgname": nm, "obj": "Dashboard", "mode": "int"}
+        plan.add("xref", [xcommon, xdash, other], xlangs, "types", passes=xpasses)
+        plan.add("xref", [other, xcommon, xdash], xlangs, "types", passes=xpasses)
+
     # --- InputOrderIndependent: TLC's perm cases (two inputs of different packages) + every permutation of three mixed-format inputs
     def conflicting(inputs):
         seen = {}
@@ -399,7 +488,7 @@ def run(ctx):
     def describe(name):
         m = plan.meta[name]
         return {"inputs": m["descs"], "langs": m["langs"], "flags": m["flags"], "allowed": m["allowed"], "ndef": m["ndef"], "sched": m["sched"],
-                "final": m.get("final", "")}
+                "final": m.get("final", ""), "passes": m.get("passes"), "entry": m.get("entry")}
 
     def pair_fail(clause, n1, n2, paths, what):
         py_pairs.add((min(n1, n2), max(n1, n2), clause))
@@ -409,6 +498,9 @@ def run(ctx):
             return
         langs = sorted({lang_of(p, full) for p in paths}) or ["-"]
         cls = "error" if not paths else ("files:" + langs[0] if len(langs) == 1 else "files")
+        entry = plan.meta[n1].get("entry")
+        if entry:      # a veneer corpus entry: one class whatever language shows it (the rules, not the language, are at fault)
+            cls = "veneers-%s/%s" % (entry, "error" if not paths else "files")
         ctx.fail("C07/%s/%s" % (clause, cls), "%s: %s; differing paths: %s" % (clause, what, paths[:6]),
                  {"clause": clause, "runs": [describe(n1), describe(n2)], "paths": paths[:20]})
 
@@ -419,7 +511,7 @@ def run(ctx):
     by_cfg = {}
     for name, m in plan.meta.items():
         by_cfg.setdefault(m["cfg"], []).append(name)
-    pkgs_of = lambda m: [pkg_name(x) for x in m["descs"]]
+    pkgs_of = lambda m: [pkg_name(x) for x in m["descs"]] if m["descs"] else list(m.get("pkgs") or [])
     for cfg, names in by_cfg.items():
         for a, b in itertools.combinations(sorted(names), 2):
             ma, mb = plan.meta[a], plan.meta[b]
@@ -431,7 +523,7 @@ def run(ctx):
                 common = set(ma["langs"]) & set(mb["langs"])
                 only = lambda p, common=common: lang_of(p, full) in common
                 nt = bool(common) and not ra["err"] and bool(ra.get("files"))
-            elif same_langs and sorted(ma["ids"]) == sorted(mb["ids"]) and len(set(pkgs_of(ma))) == len(ma["ids"]):
+            elif same_langs and sorted(ma["ids"]) == sorted(mb["ids"]) and len(set(ma["ids"])) == len(ma["ids"]) and same_package_order(ma, mb):
                 clause = "InputOrderIndependent"
                 nt = not ra["err"] and bool(ra.get("files"))
             elif same_langs and abs(len(ma["ids"]) - len(mb["ids"])) == 1:
@@ -556,6 +648,8 @@ def run(ctx):
     if not quick:
         entries.append(pc.feature_entry(idir, "im-all", {"pkgs": 2, "cands": 1, "defaults": 1, "compose": 2, "nested": 1, "collide": 1}))
     entries.append(pc.constref_entry(idir, "im-constref"))
+    entries.append(pc.veneer_params_entry(idir, "im-veneerparams"))
+    entries.append(pc.veneers_entry(idir, "im-veneers"))
     for e in entries:
         for sv in ([None, {"random": ctx.seed + 101}] if overlay else [None]):
             ijobs.append({"id": e["id"] + ("-rnd" if sv else ""), "yaml": e["yaml"], "chains": chains + e.get("chains", []), "sched": sv,
@@ -563,6 +657,7 @@ def run(ctx):
     ires = pc.run_jobs(ctx, "c07-immut", ijobs, parallel=8)
     immut_records = []
     copy_mutators = set()
+    veneer_steps = 0
     for r in ires:
         if r.get("err") and not r.get("timeout"):
             raise core.Inconclusive("immutability corpus entry %s does not run: %s" % (r["id"], r["err"]))
@@ -577,6 +672,8 @@ def run(ctx):
             rp = {"clause": "InputsNeverMutated", "entry": r["id"], "step": s["step"]}
             if kind == "jennies" and s["same"] and s.get("language_copy_same") is False:
                 copy_mutators.add(s["step"].split(":")[1])
+            if kind == "veneers":
+                veneer_steps += 1
             if not s["same"]:
                 ctx.fail("C07/InputsNeverMutated/%s/schemas" % (s["step"] if kind == "chain" else kind),
                          "%s modified the schemas it was handed: %s" % (s["step"], json.dumps(s.get("first_difference"))[:300]), rp)
@@ -587,6 +684,8 @@ def run(ctx):
                     ctx.fail("C07/InputsNeverMutated/%s/second-application-differs" % s["step"],
                              "%s applied twice to the same schemas gives two different results" % s["step"], rp)
 
+    if veneer_steps == 0 and not ctx.failures:
+        raise core.Inconclusive("no builder-transformation (veneers) step was snapshotted")
     if copy_mutators:
         ctx.notes.append("diagnostic (no C07 clause): the jennies of %s modify the per-language copy of the schemas they are handed "
                          "(the shared schemas stay untouched)" % sorted(copy_mutators))
@@ -730,7 +829,14 @@ def replay(ctx):
     elif clause in ("LanguageIndependent", "InputOrderIndependent", "UnrelatedInputIrrelevant", "Deterministic"):
         jobs = []
         for k, x in enumerate(r["runs"]):
-            jobs.append(make_job(base, "replay%d" % k, x["inputs"], x["langs"], FLAGSETS[x["flags"]], x["allowed"], x["ndef"], x["sched"], x.get("final", "")))
+            if x.get("entry"):
+                e = pc.GROWTH_ENTRIES[x["entry"]](base, "replay%d" % k, langs=x["langs"])
+                j = {"id": "replay%d" % k, "yaml": e["yaml"], "inspect": False, "outdir": "out", "langs": x["langs"], "pkgs": e["pkgs"]}
+                if x["sched"]:
+                    j["sched"] = x["sched"]
+                jobs.append(j)
+                continue
+            jobs.append(make_job(base, "replay%d" % k, x["inputs"], x["langs"], FLAGSETS[x["flags"]], x["allowed"], x["ndef"], x["sched"], x.get("final", ""), x.get("passes")))
         out = pc.run_jobs(ctx, "pipe-run", jobs, args=["-full"], parallel=2)
         a, b = sorted(out, key=lambda o: o["id"])
         common = set(r["runs"][0]["langs"]) & set(r["runs"][1]["langs"])
@@ -764,6 +870,8 @@ def replay(ctx):
                    "im-sink": lambda: pc.sink_entry(idir, "im-sink"),
                    "im-passes": lambda: pc.passes_entry(idir, "im-passes"),
                    "im-constref": lambda: pc.constref_entry(idir, "im-constref"),
+                   "im-veneerparams": lambda: pc.veneer_params_entry(idir, "im-veneerparams"),
+                   "im-veneers": lambda: pc.veneers_entry(idir, "im-veneers"),
                    "im-all": lambda: pc.feature_entry(idir, "im-all", {"pkgs": 2, "cands": 1, "defaults": 1, "compose": 2, "nested": 1, "collide": 1})}
         eid = r["entry"].replace("-rnd", "")
         e = entries[eid]()
